@@ -182,8 +182,7 @@ def main():
     jobs = 16
     per = (n + jobs - 1) // jobs
     chunks = [(seed, i, min(n, i + per), ncfg) for i in range(0, n, per)]
-    with multiprocessing.get_context("fork").Pool(len(chunks)) as pool:
-        results = pool.map(_worker, chunks)
+    results = common.pmap(_worker, chunks)
     for r in results:
         for k, v in r["counts"].items():
             ck.count(k, v)
